@@ -298,6 +298,9 @@ contract(
     # every `if` keeps its two paths apart ((non-BMP or not) x (UVS or not)): four simple post-states instead of one
     # with ite-merged heap arrays and lambda-defined dicts (which took the solvers 5-16 s per clause)
     merge_branches=False,
+    # `mapping` / `nonBMP` are stored into two subtables each and never mutated afterwards (nonBMP.update runs BEFORE it is stored;
+    # `mapping = nonBMP` re-binds the name): value semantics for the shared dicts is justified
+    alias_ok=("mapping", "nonBMP"),
     modifies=["TTFont.tbl:cmap"],  # frame: the only pre-existing object written is the font (its 'cmap' slot); everything else is new
     locals={"uvsList": List(lib.UVS_ENTRY), "uvsDict": Dict(INT, List(lib.UVS_ENTRY))},
     hints={"uvsDict = dict()": [f"all(k in mapping and mapping[k] == {_M}[k] for k in {_M})"]},
